@@ -58,7 +58,10 @@ LEVEL_NOTE = ("Trusted: Lean kernel; scikit-learn 1.9.1 is not modelled, its con
               "classes, AP step integral, 0 for classes without positives) are stated in the model and compared with sklearn's "
               "output on every generated case. Tags travel to the model as content read from the fields of objects built like "
               "the ones handed to the code; class indices come from the Lean model of the encoder (C19), never from the "
-              "library's encoder; the geometry matcher's answer is a parameter of the detection driver (C07/C08). Unmodelled: "
+              "library's encoder; how a Tag object is made (its class below data.Tag, constructor / model_validate / model_copy, "
+              "the identity of its Term object) is not part of its content: that is today's behaviour (SimpleEncoder keys on "
+              "(term, value)); whether a Term *subclass* instance is the same term as a plain Term with the same fields is not "
+              "pinned (never generated side by side); the geometry matcher's answer is a parameter of the detection driver (C07/C08). Unmodelled: "
               "binary64/float32 rounding (scores on dyadic grids or one non-dyadic "
               "score per item so that float32 sums are exact; balanced accuracy and AP compared within 2^-40); exp/log of the "
               "multilabel clip score (closed form over the model's encodings compared within 2^-18, also inside the task). The "
@@ -75,7 +78,13 @@ RULE = ("end-to-end task inputs (vocabularies of 1-6 tags, sizes 1/2/3/4 forced;
         "vocabulary, equal contents at several positions incl. repeated predicted tags; 1-8 clips, clips on one side only, 0-4 "
         "sound events per clip, true tags incl. none and out-of-vocabulary, dyadic / one-hot non-dyadic / arbitrary (multilabel) "
         "scores, exact ties best class = left-over probability and between classes, scores exactly 0 and 1; the same content "
-        "handed over with shared Tag objects, numpy / int scores, tuples, positional arguments); histories of 3-5 evaluations in "
+        "handed over with shared Tag objects, numpy / int scores, tuples, positional arguments; construction paths of the tags, "
+        "independently for vocabulary / annotation / predicted tags: instances of Tag subclasses with and without a field of "
+        "their own, model_validate from a dictionary / around a Term object, model_copy shallow / deep / with update, one Term "
+        "object shared by all tags of a term vs equal separately built Terms, a query tag on the Term object of vocabulary tag i "
+        "with the value of vocabulary tag j, terms that are instances of a Term subclass: every (vocabulary form, annotation "
+        "form) pair per task over a pool with two values under one term, and 30 % of the random stream and 35 % of the "
+        "histories); histories of 3-5 evaluations in "
         "one process (vocabulary V1, a subset, the subset reordered, V1 again; two tasks alternating over the same live objects; "
         "objects reused after their tags were assigned, edited in place or model_copy'd; results poisoned by the caller; earlier "
         "results re-read at the end); direct calls of the metric functions on encoded arrays (float32 / float64, C / Fortran / "
@@ -84,7 +93,8 @@ RULE = ("end-to-end task inputs (vocabularies of 1-6 tags, sizes 1/2/3/4 forced;
 TRUSTED = ["scikit-learn 1.9.1 metrics (balanced_accuracy_score, accuracy_score, average_precision_score, jaccard_score, log_loss): "
            "outputs compared with the Lean definitions on every case",
            "numpy argmax / argsort(kind='mergesort') / mean; np.float32 for the value a score array stores",
-           "harness: reads the content of a tag from the fields of a freshly built Tag (tagpool.content); the class index is "
+           "harness: reads the content of a tag from the fields of a freshly built Tag (tagpool.content; the construction "
+           "variants of tagpool.fresh are content-preserving: same fields read back); the class index is "
            "computed in Lean by C19's model of SimpleEncoder (theorem C09_tags_bridge)",
            "the geometry matcher (match_geometries): its answer per evaluated clip is a parameter of the detection driver "
            "(properties C07 / C08 cover it)"]
@@ -734,6 +744,19 @@ def _pool_and_vocab(rng, lo=1, hi=6, size=None):
         else:
             pool = TP.gen_pool(rng)
             vocab = rng.sample(POSITIONS, n)
+        if rng.random() < 0.2:
+            # some terms as instances of a Term subclass.  One class per term content within a pool: whether a Term
+            # subclass instance is the same term as a plain Term with the same fields (today it is not: pydantic's
+            # __eq__ compares the classes; C19's model compares fields) is not for this check to pin, so the two never
+            # stand side by side
+            cls = {}
+            for d in pool:
+                if "term" in d:
+                    k = jkey(d["term"])
+                    if k not in cls:
+                        cls[k] = rng.choice(TP.TERM_CLASSES) if rng.random() < 0.4 else None
+                    if cls[k]:
+                        d["termcls"] = cls[k]
         vocab = TP.dedupe_ids(pool, vocab)
         if size is None or len(vocab) == size:
             return pool, vocab
@@ -744,14 +767,29 @@ _OPTS = [{"tags": "shared"}, {"score": "np64"}, {"score": "np32"}, {"score": "in
          {"call": "positional"}]
 
 
+def _gen_forms(rng, p_form=0.6, p_term=0.4):
+    """how the Tag objects of the vocabulary, the annotations and the predictions are made, independently of each other
+    (tagpool.FORMS: Tag subclasses with / without a field of their own, model_validate, model_copy ...) and where their
+    Term objects come from (tagpool.TERM_MODES: one per tag, one shared object per term, the Term object of a
+    vocabulary tag with another value).  Content-preserving by construction: the model request does not see it."""
+    o = {}
+    for role in ("vocab", "ann", "pred"):
+        if rng.random() < p_form:
+            o[role] = rng.choice(TP.FORMS[1:])
+        if rng.random() < p_term:
+            o[role + "_term"] = rng.choice(["shared", "shared"] if role == "vocab" else TP.TERM_MODES[1:])
+    return o
+
+
 def _gen_opts(rng):
     """how the same content is handed to the task function (see evalgen.build): most cases the plain way"""
-    if rng.random() < 0.65:
-        return None
     o = {}
-    for d in rng.sample(_OPTS, rng.choice([1, 1, 2, 3])):
-        o.update(d)
-    return o
+    if rng.random() < 0.35:
+        for d in rng.sample(_OPTS, rng.choice([1, 1, 2, 3])):
+            o.update(d)
+    if rng.random() < 0.3:
+        o.update(_gen_forms(rng))
+    return o or None
 
 
 def _finish(rng, inp, pool):
@@ -767,8 +805,8 @@ def _draw(rng, vocab):
     return vocab if rng.random() < 0.7 else POSITIONS
 
 
-def _gen_clip_task(rng, task, n_clips=None, size=None):
-    pool, vocab = _pool_and_vocab(rng, size=size)
+def _gen_clip_task(rng, task, n_clips=None, size=None, pv=None):
+    pool, vocab = pv or _pool_and_vocab(rng, size=size)
     nb = n_clips if n_clips is not None else rng.choice([1, 1, 2, 3, 4, 6, 8])
     p_ids, a_ids = G.clip_ids(rng, nb, rng.choice([0, 0, 1]), rng.choice([0, 0, 1]))
     ml = task == "clip_multilabel_classification"
@@ -786,8 +824,8 @@ def _gen_clip_task(rng, task, n_clips=None, size=None):
 _BOX = ["1", "1000", "2", "2000"]
 
 
-def _gen_sec(rng, n_clips=None, size=None):
-    pool, vocab = _pool_and_vocab(rng, size=size)
+def _gen_sec(rng, n_clips=None, size=None, pv=None):
+    pool, vocab = pv or _pool_and_vocab(rng, size=size)
     nb = n_clips if n_clips is not None else rng.choice([1, 1, 2, 3, 4])
     p_ids, a_ids = G.clip_ids(rng, nb, rng.choice([0, 0, 1]), rng.choice([0, 0, 1]))
     events = {}
@@ -830,8 +868,8 @@ def _gen_sec(rng, n_clips=None, size=None):
                    pool)
 
 
-def _gen_detection(rng, n_clips=None, size=None):
-    pool, vocab = _pool_and_vocab(rng, size=size)
+def _gen_detection(rng, n_clips=None, size=None, pv=None):
+    pool, vocab = pv or _pool_and_vocab(rng, size=size)
     inp = G.gen_detection(rng, n_clips=n_clips, vocab=vocab)
     for c in inp["predictions"]:          # the boundary rows of _sl_scores for some predicted sound events
         for e in c["events"]:
@@ -887,6 +925,10 @@ def gen_rich(rng, events, size=None, n_clips=None):
            "predictions": preds, "annotations": anns}
     if pool is not None:
         inp["tagpool"] = pool
+    if rng.random() < 0.35:
+        o = _gen_forms(rng)
+        if o:
+            inp["opts"] = o
     return inp
 
 
@@ -965,10 +1007,19 @@ STEP = Op("task_step", _impl_task, to_model=to_model, compare=_compare_task, hol
 
 
 def _tag_makers(inp):
+    """(annotation tag, predicted tag, vocabulary) builders for a reuse step: the forms of inp["opts"] if it has any"""
+    opts = inp.get("opts") or {}
+    forms = {k: opts[k] for k in G.TAG_FORM_KEYS if opts.get(k) is not None}
+    if forms:
+        mk = TP.Maker(TP.descriptors(inp), forms)
+        vocab = mk.vocab(inp["vocab"])         # first: "cross" takes its Term objects from these
+        return (lambda t: mk.make("ann", t)), (lambda t: mk.make("pred", t)), vocab
     if inp.get("tagpool") is not None:
         descs = inp["tagpool"]
-        return lambda t: TP.fresh(descs[t])
-    return G.tag
+        one = lambda t: TP.fresh(descs[t])  # noqa: E731
+    else:
+        one = G.tag
+    return one, one, [one(t) for t in inp["vocab"]]
 
 
 def _skeleton(inp):
@@ -1016,13 +1067,13 @@ def _h_modify(args, inp, how):
     old = args["inp"]
     if _skeleton(old) != _skeleton(inp):
         return None
-    mk = _tag_makers(inp)
+    mk, mk_p, vt = _tag_makers(inp)
     same_tags = all(old[s] == inp[s] for s in ("predictions", "annotations")) and old.get("tagpool") == inp.get("tagpool")
     if how == "same" and not same_tags:
         how = "assign"
 
     def ptags(ts):
-        return [data.PredictedTag(tag=mk(t), score=float(frac(s))) for t, s in ts]
+        return [data.PredictedTag(tag=mk_p(t), score=float(frac(s))) for t, s in ts]
 
     def ttags(ts):
         return [mk(t) for t in ts]
@@ -1044,7 +1095,6 @@ def _h_modify(args, inp, how):
                     deep = how == "deepcopy"
                     ses = [eo.model_copy(update={"tags": conv(e["tags"])}, deep=deep) for e, eo in zip(evs, obj.sound_events)]
                     new[key][i] = obj.model_copy(update={"tags": conv(c.get("tags", [])), "sound_events": ses}, deep=deep)
-    vt = ttags(inp["vocab"])
     if how == "inplace":
         new["tags"][:] = vt
     else:
@@ -1266,6 +1316,8 @@ def _tag_tallies(ctx, inp):
         ctx.tally("tags:pool=legacy")
         return
     ctx.tally("tags:pool=adversarial")
+    if any(d.get("termcls") for d in inp["tagpool"]):
+        ctx.tally("tags:term-subclass-instances-in-pool")
     pool = [TP.content(d) for d in inp["tagpool"]]
     lv = lambda t: (t["term"]["label"], t["value"])  # noqa: E731
     nv = lambda t: (t["term"]["name"], t["value"])  # noqa: E731
@@ -1337,6 +1389,7 @@ def _stage_task(ctx, t, n):
         cases += [gen_task(ctx.rng, t, size=size) for _ in range(max(4, n // 25))]
     for c in cases:
         _tag_tallies(ctx, c)
+        _cross_tally(ctx, c)
         _row_tallies(ctx, c)
         _shape_tallies(ctx, c)
     ctx.run_cases(OPS[t], cases)
@@ -1352,6 +1405,82 @@ def _stage_exhaustive(ctx):
                                                     "{[], 0:1/2, 1:1/2, 0:1/2+1:1/2, 0:1/4+1:1/2, 2:1/2} for each task; "
                                                     "over the legacy tags and over {gbif:taxon=Turdus, ebird:taxon=Turdus} "
                                                     "with a near miss (other uri) as tag 2")
+
+
+# the pool of the construction-path stage: two values under one term (so that the Term object of one vocabulary tag can
+# come with the value of another), the same value under a sibling term, near misses, a term that is an instance of a
+# Term subclass (under two values), the deprecated key= spelling
+FORM_POOL = [{"term": TP.T_GBIF, "value": "Turdus"}, {"term": TP.T_GBIF, "value": "Parus"},
+             {"term": TP.T_EBIRD, "value": "Turdus"}, {"term": TP.T_GBIF, "value": "turdus"},
+             {"term": TP.T_URI, "value": "Turdus"}, {"term": TP.T_CALL, "value": "Turdus", "termcls": "sub"},
+             {"term": TP.T_CALL, "value": "Parus", "termcls": "sub"}, {"key": "taxon", "value": "Turdus"}]
+
+
+def _gen_form_cases(rng, t, reps=1):
+    """every (vocabulary form, annotation form) pair with the prediction form and the three Term-object modes rotating
+    through, over FORM_POOL with a vocabulary that always holds positions 0 and 1 (one term, two values)"""
+    F, M = TP.FORMS, TP.TERM_MODES
+    out = []
+    k = 0
+    for _ in range(reps):
+        for i, vf in enumerate(F):
+            for j, qf in enumerate(F):
+                k += 1
+                vocab = [0, 1] + rng.sample(range(2, 8), rng.choice([0, 1, 1, 2])) + ([5, 6] if k % 4 == 0 else [])
+                vocab = list(dict.fromkeys(vocab))
+                rng.shuffle(vocab)
+                inp = gen_task(rng, t, pv=([dict(d) for d in FORM_POOL], vocab))
+                o = {key: v for key, v in (inp.get("opts") or {}).items() if key not in G.TAG_FORM_KEYS and key != "tags"}
+                spec = {"vocab": vf, "ann": qf, "pred": F[(i + j + k) % len(F)],
+                        "vocab_term": ("fresh", "shared")[k % 2], "ann_term": M[(k // 2) % 3], "pred_term": M[(k // 6) % 3]}
+                o.update({key: v for key, v in spec.items() if v not in ("plain", "fresh")})
+                if o:
+                    inp["opts"] = o
+                else:
+                    inp.pop("opts", None)
+                out.append(inp)
+    return out
+
+
+def _cross_tally(ctx, inp):
+    """a query tag that is *in* the vocabulary and was built from the Term object of another vocabulary tag"""
+    o = inp.get("opts") or {}
+    descs = TP.descriptors(inp)
+    voc = [TP.content(descs[t]) for t in inp["vocab"]]
+    vkeys = {jkey(v) for v in voc}
+    for side, role in (("annotations", "ann"), ("predictions", "pred")):
+        ids = []
+        for c in inp[side]:
+            for holder in [c] + list(c.get("events", [])):
+                ids += [x[0] if isinstance(x, list) else x for x in holder.get("tags", [])]
+        form, vform = o.get(role, "plain"), o.get("vocab", "plain")
+        if form != vform and any(jkey(TP.content(descs[i])) in vkeys for i in ids):
+            ctx.tally(f"forms:{role}={form}:tag-of-a-vocabulary-made-otherwise")
+            ctx.tally(f"forms:vocab={vform}:{role}-tag-made-otherwise")
+        if o.get(role + "_term") == "cross":
+            for i in ids:
+                c = TP.content(descs[i])
+                if jkey(c) in vkeys and any(jkey(v["term"]) == jkey(c["term"]) and v["value"] != c["value"] for v in voc):
+                    ctx.tally(f"forms:{role}:term-object-of-vocabulary-tag-i-with-value-of-tag-j")
+                    break
+
+
+def _stage_forms(ctx):
+    # what the harness assumes of pydantic / data.Tag: every construction variant yields an object with the same fields
+    # (read back from the object, no __eq__ involved), alone and around a shared Term object
+    for d in FORM_POOL + TP.LEGACY[:3]:
+        want = jkey(TP.read_back(TP.fresh(d)))
+        for form in TP.FORMS:
+            for shared in (False, True):
+                got = TP.read_back(TP.fresh(d, form, TP.fresh(d).term if shared else None))
+                ctx.contract("tag-construction-variant-keeps-the-fields", jkey(got) == want,
+                             {"descriptor": d, "form": form, "shared_term": shared}, got)
+    for t in G.TASKS:
+        cases = _gen_form_cases(ctx.rng, t, reps=ctx.budget(1, 4))
+        for c in cases:
+            _tag_tallies(ctx, c)
+            _cross_tally(ctx, c)
+        ctx.run_cases(OPS[t], cases)
 
 
 def _stage_metrics(ctx, n):
@@ -1385,6 +1514,7 @@ def run(ctx):
     for t in G.TASKS:
         ctx.stage("task:" + t, _stage_task, ctx, t, n)
     ctx.stage("exhaustive", _stage_exhaustive, ctx)
+    ctx.stage("construction paths", _stage_forms, ctx)
     ctx.stage("histories", _stage_histories, ctx, ctx.budget(160, 1600))
     ctx.stage("metric functions", _stage_metrics, ctx, ctx.budget(4500, 60000))
 
@@ -1418,5 +1548,6 @@ def search(ctx, failures):
     tasks = {f.extra.get("task") for f in failures if f.extra.get("task")} or set(G.TASKS)
     for t in tasks:
         ctx.run_cases(OPS[t], [gen_task(ctx.rng, t) for _ in range(150)])
+        ctx.run_cases(OPS[t], _gen_form_cases(ctx.rng, t))
     ctx.run_cases(OPS["metric"], [_gen_metric(ctx.rng) for _ in range(2000)])
     ctx.run_cases(OPS["task_history"], gen_histories(ctx.rng, 60))
